@@ -21,8 +21,8 @@ ROOT = os.path.dirname(build.HERE)
 EVIDENCE = os.path.join(ROOT, 'evidence')
 
 BUDGET = {
-    'quick': {'z3_ms': 8000, 'fallback_s': 25, 'group_ms': 1500, 'hard_s': 240, 'cvc5': True, 'kissat': True},
-    'thorough': {'z3_ms': 120000, 'fallback_s': 600, 'group_ms': 5000, 'hard_s': 3000, 'cvc5': True, 'kissat': True, 'plain_cvc5': True},
+    'quick': {'z3_ms': 8000, 'fallback_s': 25, 'group_ms': 1500, 'hard_s': 240, 'cvc5': True, 'kissat': True, 'max_unknown': 2},
+    'thorough': {'z3_ms': 120000, 'fallback_s': 600, 'group_ms': 5000, 'hard_s': 3000, 'cvc5': True, 'kissat': True, 'plain_cvc5': True, 'max_unknown': 12},
 }
 
 PROP_TEXT = {}
@@ -48,6 +48,15 @@ def fn_hash(mod, name, seen=None):
                 seen.add(c)
                 h.update(fn_hash(mod, c, seen).encode())
     return h.hexdigest()[:16]
+
+
+def oracle_key(w):
+    if w.get('mem'):
+        return ('mem', w['op'])
+    o = ops.BY_NAME[w['op']]
+    f = getattr(o.oracle, 'lane', o.oracle)
+    return (f.__name__, getattr(o.lane_pre, '__name__', None) if o.lane_pre else None, o.cmp, o.args, o.ret, o.rm,
+            getattr(o.pre, '__name__', None) if o.pre else None)
 
 
 def main(argv=None):
@@ -81,10 +90,10 @@ def main(argv=None):
     return run_wrapper_property(prop, tier, seed, a, t0)
 
 
-def run_wrapper_property(prop, tier, seed, a, t0, extra_tasks=None, extra_evidence=None):
+def run_wrapper_property(prop, tier, seed, a, t0, extra_tasks=None, extra_evidence=None, cfgs=None, gen_kwargs=None):
     budget = dict(BUDGET[tier])
     ladder = configs.check_ladder(build.REPO)
-    cfgs = configs.for_tier(tier)
+    cfgs = cfgs or configs.for_tier(tier)
     if a.configs:
         cfgs = [configs.BY_NAME[c] for c in a.configs.split(',')]
     kf = known.load()
@@ -96,7 +105,7 @@ def run_wrapper_property(prop, tier, seed, a, t0, extra_tasks=None, extra_eviden
     n_dedup = 0
     per_cfg_counts = {}
     for cfg in cfgs:
-        ws = gen.wrappers_for(cfg, [prop], tier) + memops.wrappers_for(cfg, [prop], tier)
+        ws = gen.wrappers_for(cfg, [prop], tier, **(gen_kwargs or {})) + memops.wrappers_for(cfg, [prop], tier)
         if a.ops:
             ws = [w for w in ws if re.search(a.ops, w['op'])]
         if a.types:
@@ -112,7 +121,7 @@ def run_wrapper_property(prop, tier, seed, a, t0, extra_tasks=None, extra_eviden
         per_cfg_counts[cfg.name] = len(ok)
         for w in ok:
             h = fn_hash(mod, w['name'])
-            key = (h, w['op'], w['type'], w['K'], w['scalar'])
+            key = (h, oracle_key(w), w['type'], w['K'], w['scalar'])
             if key in dedup:
                 n_dedup += 1
                 dedup[key]['also'].append(cfg.name)
